@@ -93,7 +93,7 @@ def io_graph(rng, depth=0):
     return g
 
 
-def run(ctx):
+def _run_main(ctx):
     rng = ctx.rng
     cases, obs, reqs = [], [], []
     for i in range(ctx.n(200)):
@@ -119,3 +119,11 @@ def run(ctx):
         if all(o in ("infer", "check") for o in ops):
             cases.append(case); obs.append({"steps": steps}); reqs.append(case)
     ctx.compare("graphs", cases, obs, reqs)
+
+
+def run(ctx):
+    _run_main(ctx)
+    # history independence: the same call on a live graph object with a history of edits / calls and on a twin rebuilt
+    # from its public state (harness/history.py)
+    import history
+    history.run(ctx, ["ports", "infer"], {"ports": "the graph-level interface of a graph object with a history", "infer": "infer_types on a graph object with a history"})
